@@ -90,7 +90,7 @@ class Recorder:
                 if fire:
                     self.fault_fired = True
             if fire:
-                self.emit({"e": "FAULT", "site": name, "op": op, "exc": f["exc"]})
+                self.emit({"e": "FAULT", "site": name, "op": op, "exc": f["exc"], "thr": self.tid()})
                 if f["exc"] == "ConnectionError":
                     import requests
 
@@ -125,7 +125,8 @@ class Recorder:
                 super()._put(item)
                 kind = KIND.get(type(item).__name__, type(item).__name__)
                 status = getattr(item, "status", None)
-                rec.emit({"e": "QPUT", "k": kind, "thr": rec.tid(), "st": getattr(status, "value", "") or ""})
+                rec.emit({"e": "QPUT", "k": kind, "thr": rec.tid(), "st": getattr(status, "value", "") or "",
+                          "op": rec.op_of_label.get(getattr(item, "label", None) or "", 0)})
 
         return TracedQueue()
 
